@@ -13,6 +13,7 @@ def run(ck, build):
             "(key ^ pad) for the key bytes and pad for the rest (ipad 0x36 / opad 0x5C); keys longer than 64 bytes are replaced by their 32-byte digest first; the block is wiped afterwards")
     ck.rule("R-C12-SEQ", "init/reinit = inner key block only; update = hash_update of the inner state; finalize = inner digest -> local, outer key block, update(inner digest, 32), finalize(out), "
             "wipe; one-shot = init(key); update(in); finalize(key,out); wipe of the local state")
+    ck.rule("R-C12-HASH", "premise: the hash underneath is the documented TinyJAMBU-Hash and streams (all rules of C10/C11 re-run on the same IR): HMAC over a different or split-dependent hash is not the documented HMAC")
     ck.not_decided += ["MAC values; that the caller passes the same key to finalize as to init (API contract)", "the hash itself is C10/C11"]
     mod = Module(build.facts("H", "N0"))
     ck.config("H", "N0")
@@ -20,6 +21,8 @@ def run(ck, build):
     def ob(cond, rule, fn, cons, ok, bad, where=None):
         return ck.ob(cond, MAP[rule], fn, cons, ok, bad, where=where)
     kdflib.check_hmac(ob, mod, "H/N0")
+    from . import hashlib
+    hashlib.premises(ck, mod, "R-C12-HASH")
     ck.floor("R-C12", "obligations over key-length classes", len(ck.obligations), 1000)
     fx = Module(build.fixture_facts(os.path.join(os.path.dirname(os.path.dirname(os.path.dirname(__file__))), "fixtures", "c12_bad.c")))
     sub = type(ck)("C12-fixture")
